@@ -439,6 +439,7 @@ type Node struct {
 	Delim    string     `json:"delim,omitempty"`
 	Encap    [][]string `json:"encap,omitempty"`
 	Wrap     int        `json:"wrap,omitempty"`
+	EqPol    int        `json:"eqpol,omitempty"` // equality closure on this node: 1 accepts everything, 2 rejects everything (stacks and Conditions)
 	Amb      int        `json:"amb,omitempty"` // ambient, semantically neutral settings (AmbXxx bits), applied after the elements are in
 	Elems    []Node     `json:"elems,omitempty"`
 
@@ -559,8 +560,23 @@ const (
 	AmbPushOK
 	AmbLogAll
 	AmbMutex
+	AmbErr // an error recorded earlier (SetErr): state left behind by an earlier call
 	AmbAll = 1<<iota - 1
 )
+
+var errAmbient = fmt.Errorf("ambient error recorded earlier")
+
+var errEqPolicyRejects = fmt.Errorf("the node's equality closure rejects")
+
+func eqPolicyOf(k int) stackage.EqualityPolicy {
+	switch k {
+	case 1:
+		return func(any, any) error { return nil }
+	case 2:
+		return func(any, any) error { return errEqPolicyRejects }
+	}
+	return nil
+}
 
 var discardLogger = log.New(io.Discard, "", 0)
 
@@ -585,6 +601,9 @@ func ApplyAmbient(s stackage.Stack, amb int) {
 	}
 	if amb&AmbPushOK != 0 {
 		s.SetPushPolicy(func(...any) error { return nil })
+	}
+	if amb&AmbErr != 0 {
+		s.SetErr(errAmbient)
 	}
 	if amb&AmbLogAll != 0 {
 		s.SetLogger(discardLogger)
@@ -648,6 +667,9 @@ func buildStack(n Node, o BuildOpts) stackage.Stack {
 	if n.Amb != 0 {
 		ApplyAmbient(s, n.Amb)
 	}
+	if f := eqPolicyOf(n.EqPol); f != nil {
+		s.SetEqualityPolicy(f)
+	}
 	if n.ReadOnly {
 		s.SetReadOnly(true)
 	}
@@ -675,6 +697,12 @@ func buildCond(n Node, o BuildOpts) stackage.Condition {
 	}
 	if n.NoNest {
 		c.SetNoNesting(true)
+	}
+	if f := eqPolicyOf(n.EqPol); f != nil {
+		c.SetEqualityPolicy(f)
+	}
+	if n.ReadOnly {
+		c.SetReadOnly(true)
 	}
 	return c
 }
